@@ -12,10 +12,14 @@
           the root itself is named by its directory name (also as `[root.name, *rel.parts[:-1]]` + `rel.stem` only below the root)
   C04.R4  hierarchy: every scanned module becomes a node; all its ancestors (get_parent_modules) become nodes and every consecutive
           (parent, child) pair of the chain gets an `inherits=True` edge; nodes are never created from *imported* names
+          (a construction whose shape cannot be read - another algorithm for the hierarchy, ledgers turned into the graph at the end -
+          is tabulated on model inputs by the finite-domain evaluator, rules/c04_model.py: nodes, inherits edges and import edges of
+          the built graph against what the property demands; a differing input is a counterexample)
   C04.R5  prefixes: absolute-import prefix = module_path.parent relative to root_path.parent (dotted), used whenever module_path
           differs from root_path; the internal-module set comes from the scan; every absolute importee is `prefix.name` exactly when
           that is a scanned module (the sub-module test of `from x import y` is made on the adjusted name; decision table over all
-          membership scenarios), relative importees never are; no character-set strip used as prefix/suffix removal
+          membership scenarios; tests on the *characters* of the imported name are free variables of that table: an outcome that depends
+          on the spelling of the name is a violation), relative importees never are; no character-set strip used as prefix/suffix removal
 
 All rules are evaluated on symbolic executions of *public* entry points (rules/c04_symx.py): `get_evaluable_architecture`,
 `get_evaluable_architecture_for_module_objects`, `Parser.parse`, `NetworkxGraph.__init__`, `ImportConverter.convert`.  Private helpers
@@ -55,7 +59,7 @@ def run(repo: Repo) -> Result:
         "along all its ancestors, no node from imported names; (e) the absolute-import prefix and its application to absolute importees."
     )
     res.not_decided = "names for arbitrary directory trees and 'sub-scan = restriction of the whole scan' (relations over concrete trees)."
-    res.trusted_base = ["pathlib / os.path semantics", "symbolic executor rules/c04_symx.py"]
+    res.trusted_base = ["pathlib / os.path semantics", "symbolic executor rules/c04_symx.py", "rules/c09_eval.py (finite-domain evaluator, used by rules/c04_model.py when the shape of the graph construction cannot be read)"]
     rule_r1(repo, res)
     n = scan.run_registration(repo, res, "C04.R2")
     if not any(u["rule"] == "C04.R2" for u in res.undecided):
